@@ -112,7 +112,11 @@ fn abs_block(max_chunks: usize, max_ops: usize) -> impl Strategy<Value = AbsBloc
         any::<bool>(),
         prop_oneof![6 => Just(0u8), 3 => 1u8..4, 1 => 4u8..=255],
         prop_oneof![8 => 0u8..6, 1 => 6u8..14],
-        abs_chunks(max_chunks, max_ops, 30, false),
+        prop_oneof![
+            24 => abs_chunks(max_chunks, max_ops, 30, false),
+            // a block whose LZMA2 stream is just the end byte (empty content)
+            1 => Just(vec![]).boxed(),
+        ],
     )
         .prop_map(|(has_packed, has_unpacked, extra_pad4, dict_extra, chunks)| AbsBlock {
             has_packed,
